@@ -13,6 +13,7 @@ tree). One fixed x86-32 program, two loop iterations over two translated blocks:
            DEC EBP ; JNZ top ; RET
 
 Events:  go (start, or continue, until the marker or the END sentinel) / run (to END, marker passes through) /
+         cbw(t) (run to END; the marker callback itself patches byte t with vm.set_mem on its first arrival and returns True) /
          arm(t) (the next executions of S1 store the toggled value of target byte t: a GUEST write) /
          hw(t) (vm.set_mem of the toggled value of target byte t: the documented HOST write path).
 Targets: first / middle / last byte of T1 and of U1 (and the one-byte T2, U2 in the thorough tier); every alternative byte
@@ -81,6 +82,7 @@ TARGETS = {
     "u2": ("U2", 0, 0x4E, "next-block:one-byte-instruction"),   # INC ESI -> DEC ESI
 }
 QUICK_TARGETS = ["t1f", "t1m", "t1l", "u1f", "u1m", "u1l"]
+CBW_QUICK = ["t1l", "u1f"]
 ALL_TARGETS = QUICK_TARGETS + ["t2", "u2"]
 _cfg = {"quick": True}
 _P = {}
@@ -216,14 +218,19 @@ def make(seed):
     st.ended = False
     st.passthrough = False
     st.marks = 0
+    st.cb_write = None
     st.broken = False
     st.writes = []          # skeletons of the writes since the last go/run
     st.armed = None
     st.nev = 0
     st.gos = 0
+    st.trailing_writes = 0
 
     def marker(j):
         st.marks += 1
+        if st.cb_write is not None and st.marks == 1:
+            a, v = st.cb_write
+            j.vm.set_mem(a, bytes([v]))          # a breakpoint callback patching code, then letting the run go on
         return True if st.passthrough else False
 
     def end_cb(j):
@@ -255,6 +262,11 @@ def events(st):
         evs.append(("go",))
         if st.ref.phase == "idle":
             evs.append(("run",))
+            if st.trailing_writes == 0:
+                for t in (CBW_QUICK if quick else targets):
+                    evs.append(("cbw", t))
+    if st.trailing_writes >= (1 if quick else 2):
+        return evs                   # writes are only interesting when a run follows: bound the write bursts
     # a guest store still to come in this run? (iteration 2 has passed S1 already)
     store_ahead = st.ref.phase == "idle" or st.ref.stops < 2
     for t in targets:
@@ -298,6 +310,7 @@ def apply(st, ev):
         jit.cpu.EDX = v
         ref.regs["EDI"], ref.regs["EDX"] = a, v
         st.armed = t
+        st.trailing_writes += 1
         st.writes.append("guest:%s:%s" % (TARGETS[t][3], _block_state(st, t)))
         return []
     if k == "hw":
@@ -306,12 +319,20 @@ def apply(st, ev):
         st.writes.append("host:%s:%s" % (TARGETS[t][3], _block_state(st, t)))
         jit.vm.set_mem(a, bytes([v]))
         ref.mem[a - CODE] = v
+        st.trailing_writes += 1
         return []
-    # go / run
+    # go / run / cbw (run to END; the marker callback patches byte t at its first arrival and lets the run go on)
     st.gos += 1
+    st.trailing_writes = 0
     cont = ref.phase == "stopped"
-    st.passthrough = (k == "run")
+    st.passthrough = k in ("run", "cbw")
     st.ended = False
+    st.cb_write = None
+    if k == "cbw":
+        st.cb_write = _toggle_value(st, ev[1])
+        st.writes.append("host-in-callback:%s:%s" % (TARGETS[ev[1]][3], _block_state(st, ev[1])))
+    if not cont:
+        st.marks = 0
     try:
         if cont:
             jit.continue_run()
@@ -330,7 +351,15 @@ def apply(st, ev):
     if raised is not None:
         st.broken = True
         return [("run-raises:%s:%s" % (type(raised).__name__, skel), "%s raised %r; %s" % (k, raised, _ctx(st)))]
-    want = ref.go(p["nxt"], not st.passthrough, cont)
+    if k == "cbw":
+        want = ref.go(p["nxt"], True, cont)
+        if want == "stopped":
+            ref.mem[st.cb_write[0] - CODE] = st.cb_write[1]
+            ref.stops -= 1
+            want = ref.go(p["nxt"], False, True)
+    else:
+        want = ref.go(p["nxt"], not st.passthrough, cont)
+    st.cb_write = None
     got = "ended" if st.ended else "stopped"
     probs = []
     if got != want or (got == "stopped" and jit.pc != p["nxt"]):
@@ -350,8 +379,6 @@ def apply(st, ev):
         probs.append(("memory-differs:%s" % skel, "code window %s / scratch %#x, reference %s / %#x; %s" % (
             bytes(mem).hex(), scratch, bytes(ref.mem).hex(), ref.scratch, _ctx(st))))
     st.writes = []
-    if ref.phase == "idle":
-        st.armed = st.armed        # the armed store stays in EDI/EDX for the next run
     return probs
 
 
@@ -369,7 +396,7 @@ def canon(st):
     ref = st.ref
     return (st.backend, st.maxline, bytes(ref.mem), ref.scratch, ref.phase, ref.stops if ref.phase == "stopped" else 0,
             tuple(ref.regs[r] for r in GPR) if ref.phase == "stopped" else (ref.regs["EDI"], ref.regs["EDX"]),
-            tuple(sorted(st.jit.jit.offset_to_jitted_func.keys())), min(st.gos, 4), st.broken and st.nev)
+            tuple(sorted(st.jit.jit.offset_to_jitted_func.keys())), min(st.gos, 4), st.trailing_writes, st.broken and st.nev)
 
 
 def outcome(st, ev):
